@@ -16,6 +16,7 @@ interval arithmetic over the monomials of an error polynomial (Newton-Raphson re
   R-C07-5  distributions: diff = upper-lower; result = lower + diff * 2^-32 * rng(); uniform_real_distribution =
            l + (g()-min)*(u-l)/(max-min); both read nothing but their own members and the generator state.
 """
+import os
 import re
 
 import sympy as sp
@@ -432,11 +433,15 @@ def check_definitions(ctx, U):
                '%d cases: inside [lower, upper] and equal to x whenever x is inside (given lower <= upper)' % len(cs),
                ['result: %s' % s.value('ret')])
     # ---- divRoundUp
-    for kname, what, div in (('K_divRoundUp_i', 'divRoundUp<int>', 'sdiv32'), ('K_divRoundUp_u', 'divRoundUp<unsigned>', 'udiv32'),
-                             ('K_divRoundUp_ul', 'divRoundUp<size_t>', 'udiv64')):
+    for kname, what, div, narrow in (('K_divRoundUp_i', 'divRoundUp<int>', 'sdiv32', 0), ('K_divRoundUp_u', 'divRoundUp<unsigned>', 'udiv32', 0),
+                                     ('K_divRoundUp_ul', 'divRoundUp<size_t>', 'udiv64', 0),
+                                     ('K_divRoundUp_u8', 'divRoundUp<unsigned char>', 'sdiv32', 8),
+                                     ('K_divRoundUp_s16', 'divRoundUp<short>', 'sdiv32', 16)):
         inst = '%s [%s]' % (what, U.cfg)
         key = '%s|%s|divRoundUp|' % (R, RKMATH)
-        s = U.summary(R, inst, kname, RKMATH)
+        # element types narrower than int: a + b - 1 is formed in int (integer promotion), where it cannot overflow, and only the
+        # quotient is converted back to T; an unsigned char operand is a non-negative int
+        s = U.summary(R, inst, kname, RKMATH, **({'nonneg': (lambda nm: True)} if narrow == 8 else {}))
         if s is None:
             continue
         n += 1
@@ -450,9 +455,19 @@ def check_definitions(ctx, U):
         pred_form = I.atom(div, a - 1, b) + 1        # right for a >= 1 only
         probs, und = [], []
         forms = set()
+        if narrow == 8:
+            accepted.append(I.atom('udiv32', a + b - 1, b))          # operands known non-negative: the same quotient
         for g, v in cs:
             g = list(g)
-            if any(I.equal_guarded([(tuple(g), v)], [((), e)])[0] for e in accepted):
+            inner = [z for z in I.all_atoms(v) if narrow and z.func.__name__ in ('sext%d_32' % narrow, 'zext%d_32' % narrow)
+                     and not z.args[0].is_Symbol]
+            if narrow and (inner or (I.is_app(v, 'udiv%d' % narrow) or I.is_app(v, 'sdiv%d' % narrow))):
+                num = inner[0].args[0] if inner else v.args[0]
+                probs.append(('narrow-numerator', 'the numerator %s is reduced to the %d-bit element type before the division (computes %s): '
+                              'the operands of a type narrower than int are promoted, so (a + b - 1) / b forms the sum in int and only the '
+                              'quotient is narrowed; held in a T-typed intermediate the sum wraps whenever a + b - 1 exceeds the range of T '
+                              'although the quotient fits (divRoundUp<uint8_t>(200, 100) = 0 instead of 2)' % (num, narrow, v)))
+            elif any(I.equal_guarded([(tuple(g), v)], [((), e)])[0] for e in accepted):
                 forms.add('(a + b - 1) / b')
             elif I.equal(v, pred_form):
                 forms.add('(a - 1) / b + 1 for a != 0')
@@ -1341,6 +1356,14 @@ def check_distributions(ctx, U):
                 else:
                     und.append('result reads member(s) %s, which the constructor does not set' % [m_ for m_ in members if m_ not in cm])
                     continue
+                if t.has(sp.zoo) or t.has(sp.nan) or t.has(sp.oo):
+                    gname = what[what.index('(') + 1:-1]
+                    probs.append(('zero-divisor', 'the scale is a division by the constant 0 for the generator %s: the divisor derived from '
+                                  'g.max() - g.min() is evaluated in the generator\'s result type, where anything added to the full-range span '
+                                  '%s wraps (max - min + 1 = 2^N = 0), so scale = (u - l) / 0 = inf and every draw is +-inf, or NaN when the '
+                                  'generator returns its minimum - far outside [l, u]; the count of values has to be formed in T, not in '
+                                  'result_type' % (gname, '2^32 - 1' if gen == 'pcg' else gen['span'])))
+                    continue
                 P = sp.Poly(sp.expand(t), l, u)
                 co = {m: c for m, c in P.terms()}
                 cu = co.pop((0, 1), 0)
@@ -1357,6 +1380,11 @@ def check_distributions(ctx, U):
                     tol = sp.Rational(span, 2 ** (23 if off_hi == 4 else 52))     # T(max - min) is rounded to T once
                     if I.equal(k * span, v - mn):
                         pass
+                    elif r.is_Rational and r > 0 and span < 1 / r <= span + 1 + tol:
+                        pass        # divides by the number of values max - min + 1 (half-open [l, u)): every draw stays inside [l, u]
+                    elif r.is_Rational and r > 0 and 1 / r > span + 1 + tol:
+                        und.append('k = (g - min) / %s with the generator span %s: the draws stay inside [l, u] but cover only the lower '
+                                   '%.4g of it - not decided' % (1 / r, span, float(span * r)))
                     elif r.is_Rational and r > 0:
                         used = 1 / r
                         if abs(used - span) > tol:
@@ -1400,23 +1428,34 @@ def check_distributions(ctx, U):
 # ============================================================================================
 #  R-C07-5 (AST part): who reads what
 # ============================================================================================
-PURE_EXTERNAL = re.compile(r'^std::(forward|move|addressof|min|max|abs|fabs|numeric_limits<.*>::\w+)$')
+PURE_EXTERNAL = re.compile(r'^(std::(forward|move|addressof|min|max|abs|fabs|numeric_limits<.*>::\w+)|'
+                           r'(std::|::)?(pow|sqrt|round|floor|ceil|trunc|rint|nearbyint|exp|exp2|log|log2|fabs|fmin|fmax|copysign)[fl]?|'
+                           r'_mm_\w+|__builtin_(ia32_\w+|\w*(pow|sqrt|round|floor|ceil|fabs|fmin|fmax|copysign)[fl]?))$')
+PACKING_FNS = re.compile(r'^rkcommon::math::(linear_to_srgb|linear_to_srgba|linear_to_srgba8|cvt_uint32)$')
 
 
-def check_purity_ast(ctx, simd):
-    """transitive callees of the distribution members reference no variable with static storage (other than
-    compile-time constants) and call nothing outside the analysed sources except a few pure std helpers"""
-    R = 'R-C07-5'
+def check_purity_ast(ctx, simd, R='R-C07-5'):
+    """transitive callees of the distribution members (R-C07-5) / of the colour packing functions (R-C07-4) reference no variable
+    with static storage (other than compile-time constants) and call nothing outside the analysed sources except a few pure std
+    helpers: the result is a function of the arguments (and, for the distributions, the seed-derived members) alone"""
     tu = ctx.front.parse(DRIVER, 'TBB', simd=simd)
-    roots = [f for f in tu.functions.values() if not f['dep'] and (
-        f['q'].startswith('rkcommon::utility::pcg32_biased_float_distribution::')
-        or f['q'].startswith('rkcommon::utility::uniform_real_distribution<'))]
+    if R == 'R-C07-5':
+        roots = [f for f in tu.functions.values() if not f['dep'] and (
+            f['q'].startswith('rkcommon::utility::pcg32_biased_float_distribution::')
+            or f['q'].startswith('rkcommon::utility::uniform_real_distribution<'))]
+        tail = ': the result is not a function of the seed-derived state alone'
+    else:
+        roots = [f for f in tu.functions.values() if not f['dep'] and PACKING_FNS.match(f['q']) and tu.body(f) is not None]
+        tail = (': the packed value is not a function of the colour passed in alone - state kept between calls in a variable with static '
+                'storage is shared by every thread that converts pixels, and its unsynchronised stores let one caller receive the bytes '
+                'computed for another caller\'s colour (per-channel / saturating / monotone are statements about a pure function)')
     n = 0
     for root in roots:
         n += 1
-        pname = re.sub(r'<[^<>]*(<[^<>]*>[^<>]*)*>', '', root['q']).replace('rkcommon::utility::', '')
-        inst = 'purity of %s %s [%s]' % (root['q'].replace('rkcommon::utility::', '')[:60], root['fty'][:40], cfgname(simd))
-        key = '%s|%s|%s|impure' % (R, RANDOM, pname)
+        pname = re.sub(r'<[^<>]*(<[^<>]*>[^<>]*)*>', '', root['q']).replace('rkcommon::utility::', '').replace('rkcommon::math::', '')
+        inst = 'purity of %s %s [%s]' % (root['q'].replace('rkcommon::utility::', '').replace('rkcommon::math::', '')[:60], root['fty'][:40],
+                                        cfgname(simd))
+        key = '%s|%s|%s|impure' % (R, RANDOM if R == 'R-C07-5' else os.path.normpath(tu.fn_file(root)), pname)
         seen = {}
         work = [(root, [pname])]
         probs, und = [], []
@@ -1452,12 +1491,19 @@ def check_purity_ast(ctx, simd):
                         continue
                     local = tu.enclosing_fn(d) is not None and d.get('storageClass') != 'static'
                     constant = d.get('constexpr') or d.get('type', {}).get('qualType', '').startswith('const ')
-                    if not local and not constant:
+                    ty_ = d.get('type', {})
+                    rec_ = tu.records_by_type.get(ty_.get('desugaredQualType') or ty_.get('qualType', '').replace('struct ', ''))
+                    if rec_ is not None and not rec_.get('fields') and not rec_.get('bases'):
+                        constant = True          # an object of an empty class (a tag such as `zero`, `one`): it holds no state
+                    if not local and not constant and d.get('tls'):
+                        und.append('%s keeps state in the thread-local variable %s (at %s): per-thread state, coherence of the remembered '
+                                   'result not decided' % (' -> '.join(chain), rd.get('name'), tu.loc(x)))
+                    elif not local and not constant:
                         probs.append('%s reads or writes the non-local variable %s (at %s)' % (' -> '.join(chain), rd.get('name'), tu.loc(x)))
         for u in und:
             ctx.undecided(R, inst, u, tu.fn_loc(root))
         for pmsg in probs[:1]:
-            ctx.violation(R, inst, pmsg + ': the result is not a function of the seed-derived state alone', tu.fn_loc(root), key=key,
+            ctx.violation(R, inst, pmsg + tail, tu.fn_loc(root), key=key,
                           path=probs)
         if not und and not probs:
             ctx.ok(R, inst, '%d functions reachable; only parameters, locals, members and compile-time constants are referenced' % len(seen),
@@ -1572,9 +1618,11 @@ def run(ctx):
     check_fp_environment(ctx)
     npure = check_purity_ast(ctx, True)
     ctx.floor('R-C07-5', npure, 5, 'distribution constructors / call operators instantiated by the driver (AST purity)')
+    npack = check_purity_ast(ctx, True, 'R-C07-4')
+    ctx.floor('R-C07-4', npack, 5, 'colour packing functions in the driver unit (AST purity)')
     ctx.floor('R-C07-1', counts['R-C07-1'], 8, 'rcp/rsqrt x float/double x SIMD/NO_SIMD')
     ctx.floor('R-C07-2', counts['R-C07-2'], 4, 'rcp_safe float/double x 2 builds')
-    ctx.floor('R-C07-3', counts['R-C07-3'], 26, '13 kernel instantiations x 2 builds')
+    ctx.floor('R-C07-3', counts['R-C07-3'], 30, '15 kernel instantiations x 2 builds')
     ctx.floor('R-C07-4', counts['R-C07-4'], 10, '5 packing functions x 2 builds')
     ctx.floor('R-C07-5', counts['R-C07-5'], 12, '6 distribution members x 2 builds')
     ctx.extra['ir_units'] = [{'unit': DRIVER, 'config': c} for c in ('TBB+SIMD', 'TBB+NO_SIMD')]
